@@ -17,4 +17,16 @@ PROPS = {
         "assumptions": COMMON_ASSUME + ["no line of the text ends in a carriage return (documented limitation)"],
         "outside": ["structured Go values (only their formatted text is quantified)"],
     },
+    "C02": {
+        "runs": [
+            {"harness": "H_C02_snapshot", "params": {"ascii": 1}, "quick": {"n": 3}, "thorough": {"n": 5}},
+            {"harness": "H_C02_snapshot", "params": {"ascii": 0}, "quick": {"n": 2}, "thorough": {"n": 2}},
+            {"harness": "H_C02_snapshot", "params": {"ascii": 1, "n0lo": 7, "n0hi": 7, "n1lo": 3, "n1hi": 3}},
+            {"harness": "H_C02_snapshot", "params": {"ascii": 1, "n0lo": 3, "n0hi": 3, "n1lo": 7, "n1hi": 7}},
+        ],
+        "bounds": {"quick": "MatchSnapshot; ASCII texts <= 3 bytes each; arbitrary bytes <= 2 each; 7-byte vs 3-byte ASCII texts (escape token vs terminator)",
+                   "thorough": "ASCII texts <= 5 bytes each; arbitrary bytes <= 2 each; 7 vs 3"},
+        "assumptions": COMMON_ASSUME + ["no line of either text ends in a carriage return (documented limitation)"],
+        "outside": [],
+    },
 }
